@@ -831,7 +831,13 @@ def impl_events(discovery, evs):
         elif ev[0] == "call":
             _, i, key = ev
             if i in calls and calls[i][1] is not None:
-                obs += cell()
+                # the id is still waiting for its answer: with the state unknown the model ignores the event; with
+                # the state resolved a call is answered at once (the outstanding one stays outstanding)
+                if sc.client._api_versions is None:
+                    obs += cell()
+                else:
+                    h2 = watch(sc.client.get_api_version(key))
+                    obs += cell() + result(h2)
                 continue
             n0 = len(sc.unaware)
             h = watch(sc.client.get_api_version(key))
